@@ -13,7 +13,9 @@ RULE = ("1-3 death strings (literals of length 1-6, small regexes) registered at
         "bytes following in the same piece; every read method; reading continues after a death; non-trivial = an occurrence "
         "is present in the stream and not aligned with the start of a piece; distinct = distinct case lines")
 TRUSTED = []
-ASSUMPTIONS = ["death strings are non-empty; regex death strings come from the modelled subset and carry no anchors"]
+ASSUMPTIONS = ["death strings are non-empty; regex death strings come from the modelled subset and carry no anchors; "
+               "the theorems (PatOk) cover assertion-free expressions — death strings with a look-ahead are generated, judged "
+               "by the Spec and fall under the known finding KF-C05-lookaround-death-string"]
 
 LITS = [b"A", b"AB", b"ABA", b"AAB", b"ABAB", b"BA", b"ABxAB", b"xAx", b"BBBBBB"]
 
@@ -32,6 +34,10 @@ def gen_ds(rng):
                            regen.Alt(regen.Cls([(120, 120)]), regen.lit(b"BA"))])
         r = regen.Seq(regen.lit(rng.choice([b"A", b"AB"])), regen.Seq(regen.Rep(body, lo, hi), regen.lit(rng.choice([b"B", b"A", b"xA"]))))
         return "X" + r.wire()
+    if k < 0.91:
+        # a death string with a look-ahead (known finding KF-C05-lookaround-death-string: its reach is not counted in
+        # the width that sizes the scan window)
+        return "X" + regen.Seq(regen.lit(rng.choice([b"A", b"AB", b"BA"])), regen.La(regen.lit(rng.choice([b"x", b"xA", b"BBx"])))).wire()
     r = regen.gen(rng, b"ABx", depth=rng.randint(1, 2))
     if r.nullable():
         r = regen.Seq(regen.Cls([(65, 65)]), r)
@@ -53,7 +59,10 @@ def gen_case(rng, params):
                 data += g.rbytes(rng, rng.randint(0, 3 * (len(d) // 2)), b"xxB")
             else:
                 import regen
-                occ = regen.sample(regen.parse_wire(d[1:]), rng)
+                rx = regen.parse_wire(d[1:])
+                occ = regen.sample(rx, rng)
+                if isinstance(rx, regen.Seq) and isinstance(rx.b, regen.La):
+                    occ += regen.sample(rx.b.r, rng) if rng.random() < 0.7 else b"x"
                 data += occ
                 data += g.rbytes(rng, rng.randint(0, 2 * len(occ)), b"xxB")
     data = bytes(data)
@@ -99,9 +108,17 @@ def gen_case(rng, params):
     return g.case_line(chunk, params["sendSliceSize"], g.script_wire(ticks, pieces), [], ops)
 
 
+def kf_lookaround_death(line, impl, model):
+    """a death string with a look-around assertion is registered (its reach is not part of the width that sizes the
+    scan window of `_check`); the model mirrors the unchanged code, so any OTHER misbehaviour on such a case shows as
+    a disagreement between implementation and model and is still reported"""
+    return impl == model and any(o.startswith(("ds+:X", "ads:X")) and "P" in o.split(":")[1] for o in line.split()[4:])
+
+
 def classify(line, obs):
     ks = classify_common(line, obs)
     ks.append("deaths=%d" % sum(1 for o in obs.split()[1:] if "death" in o.split(";")[0]))
+    ks.append("lookahead_ds=%d" % any(o.startswith(("ds+:X", "ads:X")) and "P" in o.split(":")[1] for o in line.split()[4:]))
     return ks
 
 
